@@ -204,8 +204,8 @@ def rule_r3(repo):
 
 
 def run(repo, check):
-    check.add(rule_r1(repo))
-    check.add(rule_r2(repo))
-    check.add(rule_r3(repo))
+    check.run_rule(rule_r1, repo)
+    check.run_rule(rule_r2, repo)
+    check.run_rule(rule_r3, repo)
     check.assumptions = ['the receiver named `state` denotes the CoderState (confirmed by reading; DESIGN 2.2)',
                          'registers are attributes of CoderState / TemplateData; no module-level mutable state is used by the walk (checked under C13)']
